@@ -343,6 +343,18 @@ theorem general_index_reads {shape : List Nat} {items : List GItem} {out idx : L
         ∃ x, Reads shape v vs (mixIn vs m b (pre ++ post)) x ∧ Valid shape x ∧
           idx[ravel out (pre ++ b ++ post)]? = some (ravel shape x) := genIndexF_spec ha h
 
+/-- **boolean-mask selection**: for every shape of at least one dimension (no zero-length axis) and every mask of that
+shape, `a[mask]` is 1-d with one entry per `True`, and its entries are the flat positions of the `True`s in ascending (C)
+order; through `single_gather_reads` the polynomial elements at exactly those positions are what `poly[mask]` holds -/
+theorem mask_selects_true_positions (shape : List Nat) (bits : List Bool) (hnd : shape.length ≠ 0)
+    (hpos : ∀ d ∈ shape, 0 < d) (hb : bits.length = size shape) :
+    genIndexF shape [.mask shape bits] = some ([(truePos bits).length], truePos bits) :=
+  Np.GenIndexFns.mask_selects_true_positions shape bits hnd hpos hb
+theorem mask_index_1d (n : Nat) (bits : List Bool) (hn : 0 < n) (hb : bits.length = n) :
+    genIndexF [n] [.mask [n] bits] = some ([(truePos bits).length], truePos bits) :=
+  Np.GenIndexFns.mask_index_1d n bits hn hb
+example : genIndexF [2, 3] [.mask [2, 3] [true, false, true, false, false, true]] = some ([3], [0, 2, 5]) := by decide
+
 /-- non-vacuity (numpy on `arange(24).reshape(2, 3, 4)`): `a[0, :, [1, 2]]` - the integer counts as an advanced item, it
 is separated from the array by the slice, so the broadcast axis comes first -; a 2-d mask followed by a stepped slice;
 an ellipsis that stands for no axis still separates -/
